@@ -24,8 +24,8 @@ CONSTANTS Files,       \* e.g. {"a", "b", "c"}; "a" is the root
           MaxOps,      \* body operations per session
           Modes        \* subset of {"recursive", "single"}
 
-VARIABLES inc, spelling, eol, mode, phase, keys, edited, reverted, removed, added, addedEmpty, addedDeep, raised, nops, hist
-vars == <<inc, spelling, eol, mode, phase, keys, edited, reverted, removed, added, addedEmpty, addedDeep, raised, nops, hist>>
+VARIABLES inc, spelling, eol, mode, phase, keys, edited, reverted, removed, respelled, added, addedEmpty, addedDeep, raised, nops, hist
+vars == <<inc, spelling, eol, mode, phase, keys, edited, reverted, removed, respelled, added, addedEmpty, addedDeep, raised, nops, hist>>
 
 IsPrefix(s, t) == Len(s) <= Len(t) /\ SubSeq(t, 1, Len(s)) = s
 
@@ -50,7 +50,7 @@ EnterFails == \E f \in Reach : Dangling(f)
 Init ==
     /\ inc \in [Files -> IncMenu]
     /\ spelling \in Spellings /\ eol \in Eols /\ mode \in Modes
-    /\ phase = "start" /\ keys = {} /\ edited = {} /\ reverted = {} /\ removed = {} /\ added = FALSE /\ addedEmpty = FALSE /\ addedDeep = FALSE
+    /\ phase = "start" /\ keys = {} /\ edited = {} /\ reverted = {} /\ removed = {} /\ respelled = {} /\ added = FALSE /\ addedEmpty = FALSE /\ addedDeep = FALSE
     /\ raised = FALSE /\ nops = 0 /\ hist = <<>>
 
 Enter ==
@@ -61,29 +61,33 @@ Enter ==
        ELSE /\ phase' = "body" /\ raised' = FALSE
             /\ keys' = IF mode = "recursive" THEN Reach ELSE {"a"}
             /\ hist' = Append(hist, [op |-> "enter", exc |-> "", keys |-> IF mode = "recursive" THEN Reach ELSE {"a"}])
-    /\ UNCHANGED <<inc, spelling, eol, mode, edited, reverted, removed, added, addedEmpty, addedDeep, nops>>
+    /\ UNCHANGED <<inc, spelling, eol, mode, edited, reverted, removed, added, addedEmpty, addedDeep, nops, respelled>>
 
 Body(op, f) == /\ phase = "body" /\ nops < MaxOps /\ nops' = nops + 1
                /\ hist' = Append(hist, [op |-> op, f |-> f])
                /\ UNCHANGED <<inc, spelling, eol, mode, phase, keys, raised>>
 
 EditModel(f) == f \in keys \ removed /\ f \notin edited /\ edited' = edited \cup {f} /\ Body("edit", f)
-                /\ UNCHANGED <<reverted, removed, added, addedEmpty, addedDeep>>
+                /\ UNCHANGED <<reverted, removed, added, addedEmpty, addedDeep, respelled>>
 \* an edit that changes one token in place to a text of the same extent (no token is added or removed)
 EditToken(f) == f \in keys \ removed /\ f \notin edited /\ edited' = edited \cup {f} /\ Body("edit-token", f)
-                /\ UNCHANGED <<reverted, removed, added, addedEmpty, addedDeep>>
+                /\ UNCHANGED <<reverted, removed, added, addedEmpty, addedDeep, respelled>>
+\* an entry is taken out of the mapping and put back under ANOTHER spelling of the same path (absolute <-> relative):
+\* the file must still be there afterwards, with the printed model
+Respell(f) == mode = "recursive" /\ f \in keys \ removed /\ f \notin respelled /\ respelled' = respelled \cup {f} /\ Body("respell", f)
+              /\ UNCHANGED <<edited, reverted, removed, added, addedEmpty, addedDeep>>
 EditRevert(f) == f \in keys \ (removed \cup edited \cup reverted) /\ reverted' = reverted \cup {f} /\ Body("edit-revert", f)
-                 /\ UNCHANGED <<edited, removed, added, addedEmpty, addedDeep>>
-DelKey(f) == mode = "recursive" /\ f \in keys \ removed /\ f # "a" /\ removed' = removed \cup {f} /\ Body("del", f)
-             /\ UNCHANGED <<edited, reverted, added, addedEmpty, addedDeep>>
+                 /\ UNCHANGED <<edited, removed, added, addedEmpty, addedDeep, respelled>>
+DelKey(f) == mode = "recursive" /\ f \in keys \ removed /\ f \notin respelled /\ f # "a" /\ removed' = removed \cup {f} /\ Body("del", f)
+             /\ UNCHANGED <<edited, reverted, added, addedEmpty, addedDeep, respelled>>
 AddKey == mode = "recursive" /\ ~added /\ added' = TRUE /\ Body("add", "new")
-          /\ UNCHANGED <<edited, reverted, removed, addedEmpty, addedDeep>>
+          /\ UNCHANGED <<edited, reverted, removed, addedEmpty, addedDeep, respelled>>
 \* a new entry whose model prints the empty text must still be created
 AddEmptyKey == mode = "recursive" /\ ~addedEmpty /\ addedEmpty' = TRUE /\ Body("addempty", "empty")
-               /\ UNCHANGED <<edited, reverted, removed, added, addedDeep>>
+               /\ UNCHANGED <<edited, reverted, removed, added, addedDeep, respelled>>
 \* a new entry two missing directory levels below the root
 AddDeepKey == mode = "recursive" /\ ~addedDeep /\ addedDeep' = TRUE /\ Body("adddeep", "deep")
-              /\ UNCHANGED <<edited, reverted, removed, added, addedEmpty>>
+              /\ UNCHANGED <<edited, reverted, removed, added, addedEmpty, respelled>>
 
 \* expected disk after the session: per file <<exists, content, rewritten>>
 Final(ok) ==
@@ -93,15 +97,16 @@ Final(ok) ==
         ELSE IF f = "empty" THEN [exists |-> ok /\ addedEmpty, content |-> "empty", rewritten |-> ok /\ addedEmpty]
         ELSE IF ok /\ f \in removed THEN [exists |-> FALSE, content |-> "", rewritten |-> FALSE]
         ELSE IF ok /\ f \in edited THEN [exists |-> TRUE, content |-> "edited", rewritten |-> TRUE]
+        ELSE IF ok /\ f \in respelled THEN [exists |-> TRUE, content |-> "respelled", rewritten |-> TRUE]
         ELSE [exists |-> TRUE, content |-> "orig", rewritten |-> FALSE]]
 
 Exit(r) ==
     /\ phase = "body"
     /\ phase' = "done" /\ raised' = r
     /\ hist' = Append(hist, [op |-> IF r THEN "raise" ELSE "exit", final |-> Final(~r)])
-    /\ UNCHANGED <<inc, spelling, eol, mode, keys, edited, reverted, removed, added, addedEmpty, addedDeep, nops>>
+    /\ UNCHANGED <<inc, spelling, eol, mode, keys, edited, reverted, removed, added, addedEmpty, addedDeep, nops, respelled>>
 
-Next == Enter \/ (\E f \in Files : EditModel(f) \/ EditToken(f) \/ EditRevert(f) \/ DelKey(f)) \/ AddKey \/ AddEmptyKey \/ AddDeepKey \/ Exit(TRUE) \/ Exit(FALSE)
+Next == Enter \/ (\E f \in Files : EditModel(f) \/ EditToken(f) \/ EditRevert(f) \/ DelKey(f) \/ Respell(f)) \/ AddKey \/ AddEmptyKey \/ AddDeepKey \/ Exit(TRUE) \/ Exit(FALSE)
 
 (* Design invariants *)
 KeysAreReachable == phase = "body" /\ mode = "recursive" => keys = Reach /\ \A f \in keys : ~Dangling(f)
